@@ -512,6 +512,27 @@ def run(rep):
     return EXPLANATION
 
 
+def ensemble_filter_tables(mod):
+    """truth tables (over: observation valid, any / all members valid) of the masks that filter obs and ens on every returning path of
+    __check_ensemble_data that returns row selections -> [(obs table, ens table)]; None in a table = mask outside the vocabulary"""
+    ck = mod.funcs.get("__check_ensemble_data")
+    if ck is None:
+        raise AnalysisError("stat/metrics.py: __check_ensemble_data not found")
+
+    def series_of(x):
+        mo = pq.mentions(x, lambda e: e == ('sym', 'obs'))
+        me = pq.mentions(x, lambda e: e == ('sym', 'ens'))
+        return "obs" if mo and not me else ("ens" if me and not mo else None)
+    out = []
+    for p_ in pq.PEval().run(ck):
+        v = p_.value
+        if p_.how != "return" or not (isinstance(v, tuple) and v[0] == 'tuple' and len(v[1]) >= 2 and all(pq.call_named(x, "getitem") for x in v[1][:2])):
+            continue
+        mo, me = pq.selector_mask(v[1][0][2][1]), pq.selector_mask(v[1][1][2][1])
+        out.append((pq.mask_table(mo, series_of, {"obs": 1, "ens": 2}), pq.mask_table(me, series_of, {"obs": 1, "ens": 2})))
+    return ck, out
+
+
 def _bool(c, rec):
     if c[0] == 'and':
         a, b = rec(c[1]), rec(c[2])
